@@ -166,12 +166,13 @@ func (_this *Encoder) OnBigInt(value *big.Int) {
 			_this.OnNegativeInt(uint64(-value.Int64()))
 			return
 		}
-		value = value.Neg(value)
-		if value.IsUint64() {
-			_this.OnNegativeInt(uint64(value.Uint64()))
+		// Work on a copy: the value belongs to the caller, who may be sharing
+		// it with other goroutines (and expects it back unchanged).
+		magnitude := new(big.Int).Neg(value)
+		if magnitude.IsUint64() {
+			_this.OnNegativeInt(uint64(magnitude.Uint64()))
 			return
 		}
-		value = value.Neg(value)
 		_this.writer.WriteTypedBigInt(cbeTypeNegInt, value)
 		return
 	}
